@@ -49,6 +49,23 @@ class UseWalrusIf(SimpleCodemod, NameResolutionMixin):
         self.assigns = {}
 
     def _build_named_expr(self, target, value, parens=True):
+        # A bare tuple, lambda, conditional, ... keeps its meaning inside the `if`
+        # test (with or without the walrus) only when it is parenthesized
+        if not value.lpar and not isinstance(
+            value,
+            (
+                cst.Name,
+                cst.Call,
+                cst.Attribute,
+                cst.Subscript,
+                cst.BaseNumber,
+                cst.BaseString,
+                cst.BaseList,
+                cst.BaseDict,
+                cst.BaseSet,
+            ),
+        ):
+            value = value.with_changes(lpar=[cst.LeftParen()], rpar=[cst.RightParen()])
         return cst.NamedExpr(
             target=target,
             value=value,
